@@ -15,16 +15,16 @@ func init() { register("C10", checkC10) }
 // Vetted residuals of the BeginBlock inventory (g4): one named construct and one line of reason each.
 // The table is closed: a site that is neither discharged nor listed fails the check.
 var c10Vetted = map[string]string{
-	"coinsub @ x/cfedistributor/keeper.Keeper.StartDistributionProcess : sdk/types.DecCoins.Sub":    "share*inflow is subtracted from the remainder; shares are validated to sum below 1, so the remainder stays non-negative (numeric argument of C03/C04, not decided here)",
-	"coinsub @ x/cfedistributor/keeper.Keeper.StartDistributionProcess : sdk/types.DecCoins.Sub #2": "burn share: same argument as above (burn share + shares < 1 by CheckIfSharesSumIsBetween0And1)",
-	"coinsub @ x/cfedistributor/keeper.Keeper.prepareCoinToDistributeForMainAccount : sdk/types.DecCoins.Sub": "main balance minus recorded remains: non-negative exactly when the books match (C03); C03.order guards the one structural way to break it",
+	"coinsub @ x/cfedistributor/keeper.Keeper.StartDistributionProcess : sdk/types.DecCoins.Sub":                 "share*inflow is subtracted from the remainder; shares are validated to sum below 1, so the remainder stays non-negative (numeric argument of C03/C04, not decided here)",
+	"coinsub @ x/cfedistributor/keeper.Keeper.StartDistributionProcess : sdk/types.DecCoins.Sub #2":              "burn share: same argument as above (burn share + shares < 1 by CheckIfSharesSumIsBetween0And1)",
+	"coinsub @ x/cfedistributor/keeper.Keeper.prepareCoinToDistributeForMainAccount : sdk/types.DecCoins.Sub":    "main balance minus recorded remains: non-negative exactly when the books match (C03); C03.order guards the one structural way to break it",
 	"coinsub @ x/cfedistributor/keeper.Keeper.prepareCoinToDistributeForMainAccount : sdk/types.DecCoins.Sub #2": "minus what this sub-distributor already swept into the main account (or took over from an internal state, whose remains were zeroed in the list at the same time): the balance grew by exactly that amount, so the difference stays the un-booked part (C03)",
-	"index @ x/cfedistributor/keeper.Keeper.addSharesToState : index []x/cfedistributor/types.State":                              "pos is the >=0 result of the state search over the same list (closures built over the list that is passed in) or len-1 right after append",
-	"index @ x/cfedistributor/keeper.Keeper.addSharesToState : index []x/cfedistributor/types.State #2":                           "same position as above (read-modify-write of the same element)",
-	"panic @ x/cfeminter.BeginBlocker : panic(error)":              "Mint fails only if the current period is missing from the parameters (excluded by C10.currentperiod) or the bank refuses to mint/forward between registered module accounts (permissions checked by g3)",
-	"panic @ x/cfeminter/keeper.Keeper.GetMinterState : panic(\"stored minter state should not have bee...)": "the minter state key is written by InitGenesis (C12.fields) and never deleted (no STORE.delete on it)",
-	"quo @ x/cfeminter/types.LinearMinting.AmountToMint : sdk/types.Dec.QuoInt64":       "divisor = period length in ms; validation orders end strictly after start and C10 bounds periods to >= 1 s",
-	"quo @ x/cfeminter/types.LinearMinting.CalculateInflation : sdk/types.Dec.QuoInt64": "divisor = period length in ns; same argument",
+	"index @ x/cfedistributor/keeper.Keeper.addSharesToState : index []x/cfedistributor/types.State":             "pos is the >=0 result of the state search over the same list (closures built over the list that is passed in) or len-1 right after append",
+	"index @ x/cfedistributor/keeper.Keeper.addSharesToState : index []x/cfedistributor/types.State #2":          "same position as above (read-modify-write of the same element)",
+	"panic @ x/cfeminter.BeginBlocker : panic(error)":                                                            "Mint fails only if the current period is missing from the parameters (excluded by C10.currentperiod) or the bank refuses to mint/forward between registered module accounts (permissions checked by g3)",
+	"panic @ x/cfeminter/keeper.Keeper.GetMinterState : panic(\"stored minter state should not have bee...)":     "the minter state key is written by InitGenesis (C12.fields) and never deleted (no STORE.delete on it)",
+	"quo @ x/cfeminter/types.LinearMinting.AmountToMint : sdk/types.Dec.QuoInt64":                                "divisor = period length in ms; validation orders end strictly after start and C10 bounds periods to >= 1 s",
+	"quo @ x/cfeminter/types.LinearMinting.CalculateInflation : sdk/types.Dec.QuoInt64":                          "divisor = period length in ns; same argument",
 }
 
 // Vetted dereferences of may-be-nil fields.
